@@ -93,6 +93,16 @@ def run(model: Model, rep: Report) -> None:
         g = guard_conjuncts(fn, loops[0], innermost=True)
         extra = sorted(x for x in g if x not in ("isinstance(char1,int)", "isinstance(char2,int)", "len(r)==3", "3==len(r)", "len(r)==5", "5==len(r)"))
         r12.check(not extra, site(fn, loops[0]), fn.qualname, "range loop runs under isinstance(char1, int) and isinstance(char2, int) only", why=f"further condition(s) {extra}: a valid range that fails them is skipped and its CIDs fall back to DW")
+    r13 = rep.rule("C07-R13", "GUARD", "Unicode source of a CID font without ToUnicode: the embedded TrueType cmap is consulted only for the Adobe-Identity / Adobe-UCS orderings (where CID = glyph id); every other collection uses its own CID-to-Unicode map", 2)
+    ci = model.func(F + "PDFCIDFont.__init__")
+    tt = [c for c in walk_no_nested(ci.node) if isinstance(c, ast.Call) and (dotted(c.func) or "").endswith("create_unicode_map")]
+    gu = [c for c in walk_no_nested(ci.node) if isinstance(c, ast.Call) and (dotted(c.func) or "") == "CMapDB.get_unicode_map"]
+    if not tt or not gu:
+        raise AnchorMissing("PDFCIDFont.__init__: unicode map sources not found")
+    g1 = guard_conjuncts(ci, tt[0])
+    g2 = guard_conjuncts(ci, gu[0])
+    r13.check(g1 == {"'ToUnicode'notinspec", "self.cidcoding=='Adobe-Identity'orself.cidcoding=='Adobe-UCS'", "ttf"}, site(ci, tt[0]), ci.qualname, "ttf.create_unicode_map() runs under: no ToUnicode, cidcoding in (Adobe-Identity, Adobe-UCS), an embedded TrueType program", why=f"conditions {sorted(g1)}: for a real collection (Adobe-Japan1 ...) the TrueType cmap is keyed by glyph id, not by CID, and would be read with the wrong key")
+    r13.check(g2 == {"'ToUnicode'notinspec", "self.cidcoding!='Adobe-Identity'", "self.cidcoding!='Adobe-UCS'"}, site(ci, gu[0]), ci.qualname, "CMapDB.get_unicode_map(...) runs under: no ToUnicode and any other ordering", why=f"conditions {sorted(g2)}")
     # ---------------------------------------------------------------- R6
     char_width_rule(model, rep, "C07-R6")
     _decode_fsm(model, rep)
